@@ -8,7 +8,8 @@
   `"<METHOD> /"`, upper case) is not part of this file.
 
   Helper lemmas: `Proofs/C13/Fsm.lean` (FSM language), `Strict.lean` (strict ⊆ relaxed),
-  `Table.lean` + `Verb.lean` (compiled matcher: kernel-checked closure over the generated table),
+  `Table.lean` + `Verb.lean` (compiled matcher: on top of the annotation-driven closure proof of
+  `Proofs/C10/HttpVerb`, re-checked by the kernel against the generated table on every run),
   `Silent.lean`, `Reply.lean`.
 -/
 import Masscanned.Proofs.C13.Silent
@@ -411,11 +412,12 @@ example (env : Env) : ∃ s, httpRepl env {} (B "GET / HTTP/1.1\r\nHost: a\r\n")
 -- the response, for a concrete RFC 2822 date
 example : reply401Ok (httpReplyBytes env0) = true :=
   http_reply_wf env0 (by decide +kernel)
--- continuation: a stored state past the verb phase
-example : ∃ ps1, httpParse { state := .uri, smackState := 57, smackId := 0 } (B "/ HT") = .ok ps1 ∧
+-- continuation: a stored state past the verb phase (the matcher state is the match row of GET, whatever
+-- its number in the compiled table)
+example : ∃ ps1, httpParse { state := .uri, smackState := methodRow (B "get"), smackId := 0 } (B "/ HT") = .ok ps1 ∧
     httpParse ps1 (B "TP/1.1\r\n\r\n") =
-      httpParse { state := .uri, smackState := 57, smackId := 0 } (B "/ HT" ++ B "TP/1.1\r\n\r\n") := by
-  obtain ⟨ps1, h1, _, h3⟩ := http_parse_append { state := .uri, smackState := 57, smackId := 0 }
+      httpParse { state := .uri, smackState := methodRow (B "get"), smackId := 0 } (B "/ HT" ++ B "TP/1.1\r\n\r\n") := by
+  obtain ⟨ps1, h1, _, h3⟩ := http_parse_append { state := .uri, smackState := methodRow (B "get"), smackId := 0 }
     ⟨by decide, by decide⟩ (B "/ HT") (B "TP/1.1\r\n\r\n")
   exact ⟨ps1, h1, h3⟩
 
